@@ -12,6 +12,9 @@ type loop struct {
 	continuePos []int
 	breakPos    []int
 	isRangeLoop bool
+	// switchDepth counts the switch statements inside this loop that enclose
+	// the code being compiled. Each one keeps its value on the stack.
+	switchDepth int
 }
 
 func (l *loop) end() {
